@@ -324,6 +324,35 @@ static void* rv_call(int v, void* p, size_t n);
 static int g_nh_calls, g_nh_need = 1;      /* the handler lets the OS grant requests again on its g_nh_need-th call */
 static void nh_fn(void) { if (++g_nh_calls >= g_nh_need) vf_os_plan_clear(); }
 #define g_nh_armed_set(on) (vf_new_handler = (on) ? &nh_fn : NULL)
+typedef struct findp_s { const void* p; int hits; } findp_t;
+static bool findp_cb(const mi_heap_t* heap, const mi_heap_area_t* area, void* block, size_t bsize, void* arg) { (void)heap; (void)area; (void)bsize; findp_t* f = (findp_t*)arg; if (block == f->p) f->hits++; return true; }
+static int block_is_live(const void* p) { findp_t f = { p, 0 }; mi_heap_visit_blocks(mi_heap_get_default(), true, &findp_cb, &f); return f.hits; }
+static void realloc_zero_exhausted(void) {
+  uint8_t* keep[4]; for (int i = 0; i < 4; i++) { keep[i] = (uint8_t*)mi_malloc(100); if (!keep[i]) { VIOL("null-result", "set-up"); return; } memset(keep[i], 0x31 + i, 100); }
+  vf_os.fail_from = vf_os.ncalls; vf_os.fail_kinds = (1u << VF_C_MMAP);
+  static const size_t fill[] = { 1 * MI_MiB, 32 * 1024, 8 * 1024, 4096, 2048, 1024, 512, 256, 128, 64, 48, 32, 16, 8, 3000, 6000, 12000, 16 * 1024, 24 * 1024, 48 * 1024 };
+  long nfill = 0;
+  for (size_t f = 0; f < sizeof(fill) / sizeof(fill[0]); f++) for (long i = 0; i < 3000000; i++) { if (mi_malloc(fill[f]) == NULL) break; nfill++; }
+  vf_err_count = 0;
+  VF_INC(checks);
+  if (mi_malloc(0) != NULL || mi_malloc(1) != NULL) { vf_sample("realloc to 0 with an exhausted heap: exhaustion incomplete after %ld blocks", nfill); return; }   /* (not reached: scenario void) */
+  vf_err_count = 0;
+  if (!block_is_live(keep[0]) || !block_is_live(keep[1]) || !block_is_live(keep[2])) { VIOL("walk-missing", "live blocks not reported by the heap walk"); return; }
+  void* r0 = mi_realloc(keep[0], 0);
+  if (r0 != NULL) { VIOL("realloc-zero", "mi_realloc(p, 0) returned %p although no block is available", r0); return; }
+  if (!block_is_live(keep[0])) { VIOL("failed-realloc-freed", "a failed mi_realloc(p, 0) released the block"); return; }
+  for (int j = 0; j < 100; j++) if (keep[0][j] != 0x31) { VIOL("failed-realloc-contents", "a failed mi_realloc(p, 0) changed the block"); return; }
+  void* r1 = mi_reallocf(keep[1], 0);
+  if (r1 != NULL) { VIOL("realloc-zero", "mi_reallocf(p, 0) returned %p although no block is available", r1); return; }
+  if (block_is_live(keep[1])) { VIOL("reallocf-not-freed", "mi_reallocf(p, 0) failed (returned NULL) but did not release the block: the caller has no pointer left to it"); return; }
+  void* r2 = mi_heap_reallocf(mi_heap_get_default(), keep[2], 0);
+  /* (the block released by the call above may serve this one: then the result is a valid block and keep[2] is gone as well) */
+  if (r2 == NULL && block_is_live(keep[2])) { VIOL("reallocf-not-freed", "mi_heap_reallocf(heap, p, 0) failed (returned NULL) but did not release the block"); return; }
+  vf_err_count = 0;
+  vf_sample("realloc to 0 with an exhausted heap (%ld filler blocks): realloc keeps, reallocf releases", nfill);
+  VF_INC(nontrivial);
+  vf_os_plan_clear();
+}
 static void mode_realloc(void) {
   long idx = 0;
   /* mi_new_realloc / mi_new_reallocn / mi_new(_n): the first attempt is refused by the OS, the new-handler returns, the retry
@@ -484,6 +513,18 @@ static void mode_realloc(void) {
       if (my == g_stop_at) return;
     }
   }
+  /* failing re-allocations to size 0 (mimalloc returns a minimal block for size 0, so even that request can fail): the OS refuses
+     new mappings and every block of every page is in use. mi_realloc / mi_heap_realloc leave the block alone, the reallocf forms
+     release it. (last case, in a process of its own: the heap is exhausted afterwards) */
+  { long my = idx++;
+    if ((my % g_workers) == g_worker) {
+      g_case = my; CASE_BEGIN("realloc #%ld re-allocation to size 0 with an exhausted heap", my); VF_INC(nodes); VF_INC(transitions);
+      pid_t pid = fork();
+      if (pid == 0) { vf_nlive = 0; realloc_zero_exhausted(); _exit(0); }
+      int st = 0; waitpid(pid, &st, 0);
+      if (!(WIFEXITED(st) && WEXITSTATUS(st) == 0) && vf_sh->nviol == 0) { VIOL("crash", "case process ended with status 0x%x", st); return; }
+    }
+  }
 }
 
 /* ================================================================================================
@@ -569,7 +610,11 @@ static void mode_zchain(void) {
         VF_INC(nodes);
         dirty_classes(sz, len);
         size_t al = (v == 2 || v == 3) ? 32 : 0, off = 0;
-        void* p = (v == 5 ? mi_zalloc_aligned_at(sz[0], 64, 16) : (al ? mi_zalloc_aligned(sz[0], al) : mi_zalloc(sz[0])));
+        /* the chain's first block comes from the zero-initialising entry points in turn (the growth relies on what each of them cleared) */
+        const int st = (c[0] + c[1] + len) % 5;
+        void* p = (v == 5 ? mi_zalloc_aligned_at(sz[0], 64, 16) : (al ? mi_zalloc_aligned(sz[0], al) :
+                   (st == 1 && sz[0] <= MI_SMALL_SIZE_MAX) ? mi_zalloc_small(sz[0]) : st == 2 ? mi_calloc(1, sz[0]) : st == 3 ? mi_heap_zalloc(mi_heap_get_default(), sz[0]) :
+                   st == 4 ? mi_heap_calloc(mi_heap_get_default(), sz[0] ? sz[0] : 1, sz[0] ? 1 : 0) : mi_zalloc(sz[0])));
         if (v == 5) { al = 64; off = 16; }
         if (vf_model_alloc(p, sz[0], al, off, 0, 1, "zalloc") < 0) return;
         for (int k = 1; k < len; k++) {
@@ -840,8 +885,8 @@ static void mode_badargs(void) {
   }
   /* (3) bad alignments */
   static const size_t bad_al[] = { 0, 3, 5, 6, 7, 12, 24, 48, 100, 1000, 4095, 4097, ((size_t)1 << 20) + 1, ((size_t)1 << 32) - 1, ((size_t)1 << 63) + 1, SIZE_MAX, SIZE_MAX - 1 };
-  static const size_t al_sizes[] = { 0, 1, 48, 8192, 100 * 1024 };
-  for (size_t ai = 0; ai < sizeof(bad_al) / sizeof(bad_al[0]); ai++) for (size_t si = 0; si < 5; si++) for (int e = 0; e < 12; e++) {
+  static const size_t al_sizes[] = { 0, 1, 48, 8192, 100 * 1024, 8, 16, 64, 1024, 4096, 1 << 20 };     /* (powers of two: the sizes an aligned fast path would take) */
+  for (size_t ai = 0; ai < sizeof(bad_al) / sizeof(bad_al[0]); ai++) for (size_t si = 0; si < sizeof(al_sizes) / sizeof(al_sizes[0]); si++) for (int e = 0; e < 12; e++) {
     long my = idx++;
     if ((my % g_workers) != g_worker) continue;
     g_case = my;
